@@ -876,4 +876,95 @@ theorem select1_exact_aux (pc : BitVec 64 → Nat) (hpc : ∀ w, pc w = popcount
       rw [if_pos this]
 
 
+/-! ### select0 (binary search over rank0) -/
+
+theorem rankB_succ_le (b : Bool) (bs : List Bool) (p : Nat) :
+    rankB b bs p ≤ rankB b bs (p + 1) ∧ rankB b bs (p + 1) ≤ rankB b bs p + 1 := by
+  unfold rankB
+  rw [List.take_add_one, List.count_append]
+  cases bs[p]? with
+  | none => simp
+  | some x => simp [List.count_cons]; split <;> omega
+
+theorem rankB_cons_succ (b x : Bool) (xs : List Bool) (p : Nat) :
+    rankB b (x :: xs) (p + 1) = (if x = b then 1 else 0) + rankB b xs p := by
+  unfold rankB
+  rw [List.take_succ_cons, List.count_cons]
+  by_cases h : x = b <;> simp [h] <;> omega
+
+/-- The position with exactly `k` `b`-bits before it that is itself a `b`-bit is `select b k`. -/
+theorem selectB_of_rank (b : Bool) (bs : List Bool) (p k : Nat)
+    (h1 : rankB b bs p = k) (h2 : rankB b bs (p + 1) = k + 1) : selectB b bs k = some p := by
+  induction bs generalizing p k with
+  | nil => simp [rankB] at h2
+  | cons x xs ih =>
+    cases p with
+    | zero =>
+      rw [rankB_cons_succ] at h2
+      have hk : k = 0 := by rw [← h1]; simp [rankB]
+      subst hk
+      by_cases hx : x = b
+      · simp [selectB, hx]
+      · simp [hx, rankB] at h2
+    | succ p =>
+      rw [rankB_cons_succ] at h1 h2
+      by_cases hx : x = b
+      · simp only [hx, if_true] at h1 h2
+        cases k with
+        | zero => omega
+        | succ k =>
+          have := ih p k (by omega) (by omega)
+          simp [selectB, hx, this]
+      · simp only [hx, if_false, Nat.zero_add] at h1 h2
+        have := ih p k h1 h2
+        simp [selectB, hx, this]
+
+/-- The binary-search loop: if `rank0` agrees with a function `f` and `f lo ≤ k < f (hi + 1)`,
+the loop (with fuel above `hi - lo`) ends at a position `p` with `f p ≤ k < f (p + 1)`. -/
+theorem select0Loop_spec (pc : BitVec 64 → Nat) (b : BVec) (k : Nat) (f : Nat → Nat)
+    (hf : ∀ i, rank0 pc b i = f i) (fuel lo hi : Nat) (hfuel : hi - lo < fuel) (hle : lo ≤ hi)
+    (hlo : f lo ≤ k) (hhi : k < f (hi + 1)) :
+    f (select0Loop pc b k fuel lo hi) ≤ k ∧ k < f (select0Loop pc b k fuel lo hi + 1) := by
+  induction fuel generalizing lo hi with
+  | zero => omega
+  | succ fuel ih =>
+    unfold select0Loop
+    by_cases hlt : lo < hi
+    · rw [if_pos hlt]
+      simp only
+      rw [hf]
+      by_cases hm : f (lo + (hi - lo) / 2 + 1) > k
+      · rw [if_pos hm]
+        exact ih lo (lo + (hi - lo) / 2) (by omega) (by omega) hlo hm
+      · rw [if_neg hm]
+        exact ih (lo + (hi - lo) / 2 + 1) hi (by omega) (by omega) (by omega) hhi
+    · rw [if_neg hlt]
+      have : lo = hi := by omega
+      subst this
+      exact ⟨hlo, hhi⟩
+
+theorem select0_exact_aux (pc : BitVec 64 → Nat) (hpc : ∀ w, pc w = popcount w) (ws : List (BitVec 64))
+    (len rate : Nat) (hlen : len ≤ 64 * ws.length) (hf : Fits ws) (b : BVec)
+    (hb : withConfig pc ws len rate = some b) (k : Nat) :
+    select0 pc b k = selectB false (bitsOf ws len) k := by
+  have hr0 : ∀ i, rank0 pc b i = rankB false (bitsOf ws len) i :=
+    fun i => (rank0_exact_aux pc hpc ws len rate hlen hf b hb i).2
+  obtain ⟨_, _, hz⟩ := count_exact_aux pc hpc ws len rate hlen hf b hb
+  have hbl : b.len = len := by
+    rw [withConfig_eq pc ws len rate hlen hf] at hb; injection hb with hb; subst hb; rfl
+  unfold select0
+  rw [hz]
+  unfold countB
+  by_cases hk : k ≥ (bitsOf ws len).count false
+  · rw [if_pos hk, selectB_none_of_count_le false _ k hk]
+  · rw [if_neg hk]
+    have hfull : rankB false (bitsOf ws len) (len + 1) = (bitsOf ws len).count false := by
+      unfold rankB; rw [List.take_of_length_le (by rw [bitsOf_length ws len hlen]; omega)]
+    have hsp := select0Loop_spec pc b k (rankB false (bitsOf ws len)) hr0 (b.len + 1) 0 b.len
+      (by omega) (by omega) (by simp [rankB]) (by rw [hbl, hfull]; omega)
+    generalize select0Loop pc b k (b.len + 1) 0 b.len = p at *
+    have hstep := rankB_succ_le false (bitsOf ws len) p
+    rw [selectB_of_rank false (bitsOf ws len) p k (by omega) (by omega)]
+
+
 end SV.BV
